@@ -179,6 +179,67 @@ func randCalls(r *rand.Rand, n int, allowDup bool) []encCall {
 	return calls
 }
 
+// wideCalls: one object with enough members (or long enough names) for the encoder to change
+// how it remembers names, every member position taking its turn as the one that is repeated
+// later on; written by tokens, by raw names and values, or as one raw value
+func wideCalls(r *rand.Rand) []encCall {
+	mk := func(k, b string) encCall { return encCall{Op: "tok", K: k, B: ints([]byte(b))} }
+	rawv := func(b string) encCall { return encCall{Op: "val", K: "", B: ints([]byte(b))} }
+	n := 60 + r.IntN(30)
+	long := r.IntN(3) == 0
+	if long {
+		n = 8 + r.IntN(10)
+	}
+	names := make([]string, n)
+	for i := range names {
+		names[i] = "k" + strconv.Itoa(i)
+		if long {
+			names[i] += strings.Repeat("x", 80+r.IntN(40))
+		}
+	}
+	dup := r.IntN(n + 2) // n, n+1: no repetition
+	at := n
+	if dup < n {
+		at = dup + 1 + r.IntN(n-dup)
+	}
+	var calls []encCall
+	if r.IntN(2) == 0 {
+		calls = append(calls, mk("[", ""))
+	}
+	style := r.IntN(3)
+	if style == 2 { // the whole object as one raw value
+		var sb strings.Builder
+		sb.WriteByte('{')
+		for i := 0; i <= n; i++ {
+			if i == at && dup < n {
+				fmt.Fprintf(&sb, "%q:0,", names[dup])
+			}
+			if i < n {
+				fmt.Fprintf(&sb, "%q:%d,", names[i], i)
+			}
+		}
+		text := strings.TrimSuffix(sb.String(), ",") + "}"
+		return append(calls, rawv(text), mk("null", ""))
+	}
+	calls = append(calls, mk("{", ""))
+	put := func(nm string) {
+		if style == 1 {
+			calls = append(calls, rawv(strconv.Quote(nm)), rawv(" 1"))
+		} else {
+			calls = append(calls, mk("str", nm), mk("num", "1"))
+		}
+	}
+	for i := 0; i <= n; i++ {
+		if i == at && dup < n {
+			calls = append(calls, mk("str", names[dup])) // refused; the program goes on
+		}
+		if i < n {
+			put(names[i])
+		}
+	}
+	return append(calls, mk("}", ""), mk("null", ""))
+}
+
 type encRunner struct {
 	steps func(c encCall) encStep
 }
@@ -235,6 +296,9 @@ func driveEnc(args map[string]string) error {
 				f := randFmt(r)
 				f.CRI, f.CRF = false, false // number canonicalisation is decided by C12/C13
 				calls := randCalls(r, 5+r.IntN(400), f.AD)
+				if r.IntN(5) == 0 {
+					calls = wideCalls(r)
+				}
 				rec := encCase{ID: i + 1, Prop: "C06", F: f, Writer: "writer", Outcomes: []int{}, Calls: calls}
 				if mode == "c07" {
 					rec.Prop = "C07"
